@@ -459,7 +459,6 @@ ssize_t comp_read(zckCtx *zck, char *dst, size_t dst_size, bool use_dict) {
         return false;
     }
     bool finished_rd = false;
-    bool finished_dc = false;
     zck_log(ZCK_LOG_DEBUG, "Trying to read %llu bytes", (long long unsigned) dst_size);
     while(dc < dst_size) {
         /* Get bytes from decompressed buffer */
@@ -471,7 +470,7 @@ ssize_t comp_read(zckCtx *zck, char *dst, size_t dst_size, bool use_dict) {
             break;
         if(rb > 0)
             continue;
-        if(finished_dc || zck->comp.data_eof)
+        if(zck->comp.data_eof)
             break;
 
         /* Decompress compressed buffer into decompressed buffer */
@@ -520,11 +519,11 @@ ssize_t comp_read(zckCtx *zck, char *dst, size_t dst_size, bool use_dict) {
             continue;
         }
 
-        /* If we finished reading and we've reached here, we're done
-         * decompressing */
+        /* If we finished reading and we've reached here, the file ended in
+         * the middle of a chunk */
         if(finished_rd) {
-            finished_dc = true;
-            continue;
+            set_error(zck, "Unexpected end of file in chunk data");
+            goto read_error;
         }
 
         /* Make sure we don't read beyond current chunk length */
